@@ -988,6 +988,10 @@ func runC07(c *Ctx) {
 		x.loader()
 		return
 	}
+	if os.Getenv("C07_STREAMS") == "big" { // development aid: only the big stream
+		x.big()
+		return
+	}
 
 	// ---- stream utf8: DecodeRuneInString against Utf8.decodeAll
 	nU := c.N(3000, 60000)
@@ -1148,6 +1152,9 @@ func runC07(c *Ctx) {
 		x.bt.Flush()
 	}
 	x.bt.Flush()
+
+	// ---- stream big: files of hundreds to thousands of directives, transactions of 1-129 bookings (c07big.go)
+	x.big()
 
 	// ---- stream loader: include trees on disk through syntax.ParseFileRecursively / syntax.ParseFile under schedule
 	// perturbation, the predicates on every delivered tree and error (c07loader.go)
